@@ -22,8 +22,15 @@ def s1_sdproperty():
     """sdproperty dispatches on args[0].__class__: register CrossHair's symbolic twins."""
     import pgpy
     from crosshair.libimpl import builtinslib as bl
+    import crosshair.simplestructs as ss
     sym = {bytearray: [bl.SymbolicByteArray], bytes: [bl.SymbolicBytes], int: [bl.SymbolicInt],
-           str: [bl.LazyIntSymbolicStr], bool: [bl.SymbolicBool]}
+           str: [bl.LazyIntSymbolicStr], bool: [bl.SymbolicBool],
+           set: [ss.ShellMutableSet], list: [ss.ShellMutableSequence], dict: [ss.ShellMutableMap]}
+    import datetime as _dt
+    from crosshair.libimpl import datetimelib as dl           # CrossHair substitutes its own datetime classes while tracing
+    for real, name in ((_dt.timedelta, 'timedelta'), (_dt.datetime, 'datetime'), (_dt.date, 'date')):
+        if hasattr(dl, name):
+            sym[real] = [getattr(dl, name)]
     n = 0
     mods = [importlib.import_module(m.name) for m in pkgutil.walk_packages(pgpy.__path__, 'pgpy.')]
     for mod in mods:
